@@ -512,6 +512,8 @@ def run(F, res, tier):
                 vis = True
     res.ob("S4", "imports-public-only", "an unqualified import only brings in public declarations of the other module (filter on Visibility::Public)",
            vis, where=ri.loc(), how="Visibility comparison in resolve_import: %s" % vis)
+    from rules import c18 as _c18v
+    _c18v.imports_test_visibility_per_declaration(F, res, rule="S25")   # .. and decides it declaration by declaration
 
 
 def lambda_param_range(F, res):
